@@ -423,7 +423,13 @@ func (ex *Exec) slice(x *ssa.Slice, fr *frame) Value {
 			ex.unsupported("slice of %d elements of a lazily materialised slice", h)
 		}
 		a.materialize(h)
-		// capacity of the result is bounded by what is materialised (append beyond reallocates, as it may)
+		// capacity: the full length of the underlying slice when it is known on this path (appends within it
+		// write in place and alias, as natively); otherwise bounded by what is materialised (an append beyond
+		// that reallocates, which the runtime may also do)
+		if sl, sh := a.slen.Range(); sl == sh && sh <= 512 && int(sh) >= h {
+			a.materialize(int(sh))
+			return Slice{b: a.b, off: l, len: h - l, cap: int(sh) - l}
+		}
 		return Slice{b: a.b, off: l, len: h - l, cap: h - l}
 	case Ptr:
 		if a.cell == nil {
